@@ -881,6 +881,68 @@ def main(chk: Check):
         if why:
             fail(chk, f"C06 fails on find_local_peaks_rough ({TORCH_DTYPE[dtype]} map with a value of {big}): {why}",
                      {k: case[k] for k in ("S", "C", "h", "w", "den", "maps", "thr", "p", "dtype")}, str(got)[:300], oracle_rough.sigs)
+    # ---- ORACLE-ONLY family (the Lean model covers finite values): maps with -inf cells (masked / dead regions: a block, isolated
+    #      cells next to a peak, a border ring) and, separately, one +inf cell; float32 / float64; refinement None (patches
+    #      containing +-inf are out of domain for the integral refinement).  Reference = brute-force strict-local-maximum scan
+    #      with ordinary float comparisons (-inf is simply smaller than everything, +inf larger).
+    ninf = float("-inf")
+    for _ in range(chk.n(40, 300)):
+        dtype = rng.choice(["f32", "f64"])
+        S, C = rng.randrange(1, 3), rng.randrange(1, 3)
+        h, w = rng.randrange(1, 8), rng.randrange(1, 8)
+        maps = [[[float(rng.randrange(0, 9)) / 8 for _ in range(w)] for _ in range(h)] for _ in range(S * C)]
+        kind = rng.choice(["block", "isolated", "ring", "plus_inf"])
+        for m in maps:
+            if kind == "block":
+                i0, j0 = rng.randrange(h), rng.randrange(w)
+                for i in range(i0, min(h, i0 + rng.randrange(1, 4))):
+                    for j in range(j0, min(w, j0 + rng.randrange(1, 4))):
+                        m[i][j] = ninf
+            elif kind == "isolated":
+                for _k in range(rng.randrange(1, 4)):
+                    i, j = rng.randrange(h), rng.randrange(w)
+                    m[i][j] = 1.0 + _k / 8  # a peak ...
+                    di, dj = rng.choice([(0, 1), (1, 0), (1, 1), (0, -1), (-1, 0), (-1, 1)])
+                    if 0 <= i + di < h and 0 <= j + dj < w:
+                        m[i + di][j + dj] = ninf  # ... with a masked cell right next to it
+            elif kind == "ring":
+                for i in range(h):
+                    for j in range(w):
+                        if i in (0, h - 1) or j in (0, w - 1):
+                            m[i][j] = ninf
+            else:
+                m[rng.randrange(h)][rng.randrange(w)] = float("inf")
+        case = {"S": S, "C": C, "h": h, "w": w, "den": 1, "maps": maps, "thr": rng.choice([0.125, 0.5, -0.25]), "p": 0,
+                "dtype": dtype, "kind": "inf:" + kind, "shape": "inf"}
+        cms = I.tensor(case)
+        a_inf = I.exact(cms)
+        small_inf = {k: case[k] for k in ("S", "C", "h", "w", "den", "maps", "thr", "p", "dtype")}
+        chk.case(("inf", kind, dtype, S, C, h, w, str(maps)), None, tags=["kind:inf:" + kind, f"dtype:{dtype}"])
+        chk.extra["oracle_only_inf_cases"] = chk.extra.get("oracle_only_inf_cases", 0) + 1
+        for fn_name, got in (("find_local_peaks_rough", I.rough(cms, case["thr"])),
+                             ("find_local_peaks(refinement=None)", I.full(cms, case["thr"], None, 5))):
+            with np.errstate(all="ignore"):
+                why = oracle_rough(np, a_inf, case["thr"], got, dtype)
+            if why:
+                fail(chk, f"C06 fails on {fn_name} ({TORCH_DTYPE[dtype]} map with {'-inf' if kind != 'plus_inf' else '+inf'} cells, {kind}): {why}",
+                     small_inf, str(got)[:300], oracle_rough.sigs)
+        # the global detector on the same maps: the reported cell holds the maximum, the value is the maximum
+        r = call(I.pf.find_global_peaks_rough, cms.clone(), threshold=case["thr"])
+        if r[0] == "raise":
+            fail(chk, "C06/C07: find_global_peaks_rough raised on a map with infinite cells", small_inf, str(r))
+        else:
+            pts, vals = r[1]
+            for k in range(S * C):
+                s_, c_ = divmod(k, C)
+                mx = a_inf[s_, c_].max()
+                x, y, v = float(pts[s_, c_, 0]), float(pts[s_, c_, 1]), float(vals[s_, c_])
+                if mx < case["thr"]:
+                    ok = x != x and y != y and v == 0.0
+                else:
+                    ok = x == x and y == y and 0 <= int(y) < h and 0 <= int(x) < w and a_inf[s_, c_, int(y), int(x)] == mx and v == float(mx)
+                if not ok:
+                    fail(chk, f"C06/C07: find_global_peaks_rough on a map with infinite cells ({kind}): channel ({s_},{c_}) max {float(mx)} "
+                              f"reported ({x}, {y}, {v})", small_inf, [x, y, v])
     # NaN cells: outside the property's domain (comparisons with NaN are false both ways); outcome recorded, not judged
     nan_map = torch.tensor([[0.0, 0.0, 0.0], [0.0, 1.0, float("nan")], [0.0, 0.0, 0.0]]).reshape(1, 1, 3, 3)
     chk.extra.setdefault("out_of_domain", {})["find_local_peaks_rough on a 3x3 map, centre 1.0 next to a NaN cell"] = str(I.rough(nan_map, 0.2))
@@ -924,6 +986,18 @@ def replay(chk: Check, payload):
         print("replay: case is not a map case:", case)
         return
     case.setdefault("kind", "replay"), case.setdefault("shape", "replay")
+    if any(abs(v) == float("inf") for mp in case["maps"] for row in mp for v in row):
+        # oracle-only family (the Lean model covers finite values)
+        cms = I.tensor(case)
+        dt = case.get("dtype", "f32")
+        for fn_name, got in (("find_local_peaks_rough", I.rough(cms, case["thr"])), ("find_local_peaks(refinement=None)", I.full(cms, case["thr"], None, 5))):
+            with I.np.errstate(all="ignore"):
+                why = oracle_rough(I.np, I.exact(cms), case["thr"], got, dt)
+            print(f"replay (oracle only, infinite cells) {fn_name}: {why}")
+            chk.case(("inf-replay", fn_name))
+            if why:
+                fail(chk, f"C06 fails on {fn_name} (map with infinite cells): {why}", case, str(got)[:300], oracle_rough.sigs)
+        return
     m = run_driver("C06.lean", [model_line(case, I.tensor(case))])[0]
     print(f"replay case={ {k: case[k] for k in ('S', 'C', 'h', 'w', 'thr')} } p={patch_size(case)} model={m[:300]}")
     run_case(chk, I, case, m, where="replay")
@@ -951,6 +1025,10 @@ if __name__ == "__main__":
         assumptions=[
             "finite maps; threshold >= -1e4 (kornia's border constant); integral_patch_size 1..8: odd p reads cells, even p reads "
             "means of four cells (half-integer sampling), both modelled; p = 1 raises inside kornia (F-C06p1) where the model gives offset 0",
+            "infinite cells: ORACLE-ONLY family (40 quick / 300 thorough maps with -inf blocks, isolated -inf cells next to a peak, a -inf "
+            "border ring, or one +inf cell; float32/float64; refinement None; brute-force reference with float comparisons) — the Lean "
+            "model covers finite values; a +inf peak is dropped by the code (F-C06huge); integral refinement on patches containing +-inf "
+            "is out of domain",
             "value range: the field model has no rounding. Inside the domain: finite values with |v| < 2^38 (float32) / 2^67 (float64) "
             "and thr >= -1e4. Sampled as EXCLUDED REGIONS with the oracle every run: thr < -1e4 with values around -1e4 (model still "
             "compared: it pads with -1e4 like the code; failures = F-C06pad) and values whose v-1e4 rounds to v incl. +inf (oracle only; "
